@@ -211,6 +211,53 @@ mut("C16", "keep-ignored", ST,
 
 
 
+# ---- C06
+mut("C06", "thub-too-few-copies", PO,
+    "    thubbed_self = [(k, thub(v, len(other._data)))",
+    "    thubbed_self = [(k, thub(v, max(1, len(other._data) - 1)))")
+mut("C06", "coefficient-read-hoisted-out-of-loop", FI,
+    '        data_sum.append("next(b{idx}) * d{idx}".format(idx=delay))',
+    '        data_sum.append("vb{idx} * d{idx}".format(idx=delay))')
+mut("C06", "a0-divides-numerator-only", FI,
+    "      den *= inv_gain.copy()\n", "      inv_gain.copy()\n")
+mut("C06", "swapped-b-a-arguments", FI,
+    '      arg_names.extend("b{idx}".format(idx=idx) for idx in '
+    'num_iterables)\n      arg_names.extend("a{idx}".format(idx=idx) for '
+    'idx in den_iterables)',
+    '      arg_names.extend("a{idx}".format(idx=idx) for idx in '
+    'den_iterables)\n      arg_names.extend("b{idx}".format(idx=idx) for '
+    'idx in num_iterables)')
+mut("C06", "pep479-regression", FI,
+    '      gen_func += ["  except StopIteration:", # A coefficient Stream '
+    'ended\n                   "    return"]              # (see PEP 479)',
+    '      gen_func += ["  except ZeroDivisionError:",\n'
+    '                   "    return"]')
+mut("C06", "coefficient-read-twice", FI,
+    '        data_sum.append("-next(a{idx}) * m{idx}".format(idx=delay))',
+    '        data_sum.append("-(next(a{idx}), next(a{idx}))[1] * m{idx}"'
+    '.format(idx=delay))')
+mut("C06", "input-prefetched", FI,
+    "    arguments = [iter(seq), memory, zero]",
+    "    arguments = [_prefetch(iter(seq)), memory, zero]")
+mut("C06", "stream-coefficient-delayed-by-one", FI,
+    "    arguments.extend(iter(self.numpoly[idx]) for idx in num_iterables)",
+    "    arguments.extend(it.chain([next(iter(self.numpoly[idx]))] * 0, "
+    "iter(self.numpoly[idx])) for idx in num_iterables)")
+mut("C06", "den-stream-sign-flipped", FI,
+    '        data_sum.append("-next(a{idx}) * m{idx}".format(idx=delay))',
+    '        data_sum.append("next(a{idx}) * m{idx}".format(idx=delay))')
+mut("C06", "add-shortcut-wrong", FI,
+    "        return ZFilter(self.numpoly + other.numpoly, self.denpoly)",
+    "        return ZFilter(self.numpoly + other.numpoly, "
+    "self.denpoly * 2)")
+mut("C06", "mul-keeps-only-first-den", FI,
+    "      return ZFilter(self.numpoly * other.numpoly,\n"
+    "                     self.denpoly * other.denpoly)",
+    "      return ZFilter(self.numpoly * other.numpoly,\n"
+    "                     self.denpoly * other.denpoly.copy() if False else "
+    "self.denpoly * other.denpoly) if len(other.denpoly) < 3 else "
+    "ZFilter(self.numpoly * other.numpoly, self.denpoly)")
+
 # equivalent under the statement (differs only at exact half-sample ties,
 # where "nearest" allows both): "(count > self._not_playing[0][0])"
 
